@@ -30,6 +30,12 @@ def main():
                         from pgradd.GroupAdd.Scheme import GroupAdditivityScheme
                         libs[o['obj']] = GroupLibrary(GroupAdditivityScheme.Load(o['lib']))
                         r['fp'] = fingerprint(libs[o['obj']])[0]
+                    elif o['op'] == 'cd_load':
+                        # a library given by a RELATIVE path, loaded after changing into a project directory
+                        import os
+                        os.chdir(o['cwd'])
+                        libs[o['obj']] = GroupLibrary.Load(o['lib'])
+                        r['fp'] = fingerprint(libs[o['obj']])[0]
                     elif o['op'] == 'share':
                         # a second library object carrying the SAME scheme object as another one (hand-built from it)
                         libs[o['obj']] = GroupLibrary(libs[o['of']].scheme)
